@@ -1874,7 +1874,7 @@ def pretty_str(s, ctx, split_pattern=None):
             pattern=split_pattern,
         ))
 
-        if len(lines) == 1:
+        if len(lines) <= 1:
             return flat_version
 
         parts = intersperse(
